@@ -43,7 +43,7 @@ PROBES = {
     'C16': ['redirect.301', 'redirect.302', 'redirect.303', 'redirect.307', 'redirect.308', 'cross_host_redirect', 'cross_scheme_redirect',
             'repeat_redirect_cross_host', 'userinfo_url', 'idn_host', 'ipv6_host', 'ipv4_host', 'nondefault_port', 'cookie_set',
             'cookie_sent', 'foreign_domain_cookie', 'auth_challenge', 'auth_sent', 'referer_https_to_http', 'encoded_path',
-            'relative_location', 'keepalive_reuse', 'proxy', 'proxy_absolute_form', 'proxy_connect', 'idle_close', 'followup_visit', 'referrer_with_userinfo'],
+            'relative_location', 'keepalive_reuse', 'proxy', 'proxy_absolute_form', 'proxy_connect', 'idle_close', 'followup_visit', 'referrer_with_userinfo', 'proxy_connect_refused'],
     'C18': ['redirect_cycle', 'unbounded_chain', 'limit_reached', 'perpetual_401', 'missing_location', 'bad_location', 'max_redirect_0',
             'server_5xx', 'reset', 'stall_timeout', 'auth_retry'],
 }
@@ -198,6 +198,14 @@ class _ProxyHandler:
                         oi = i
                 h.connects.append(hp)
                 h.r.probes['proxy_connect'] += 1
+                if oi is not None and getattr(h, 'refuse_connects', 0) > 0:
+                    # the proxy refuses the tunnel but keeps the connection open (503 / 407 with keep-alive)
+                    h.refuse_connects -= 1
+                    h.connect_refused = True
+                    h.r.probes['proxy_connect_refused'] += 1
+                    h.r.faults['proxy_refuses_connect'] += 1
+                    conn.send(b'HTTP/1.1 %s\r\nContent-Length: 0\r\n\r\n' % h.tape.choice((b'503 Service Unavailable', b'407 Proxy Authentication Required\r\nProxy-Authenticate: Basic realm="p"', b'403 Forbidden'), 'proxy.refuse.status'), mode=0)
+                    continue
                 if oi is None:
                     h.r.violate('C16', 'wrong-origin', 'connect-target', 'CONNECT %r names no https origin of the site' % hp)
                     conn.send(b'HTTP/1.1 502 Bad Gateway\r\nContent-Length: 0\r\n\r\n', mode=0)
@@ -249,11 +257,11 @@ def run(tape, prop, tier):
     opt_login = None
     if tape.chance(1, 3 if prop == 'C18' else 4, 'opt_login'):
         # --http-user / --http-password given together, or (legal) only one of them
-        opt_login = tape.choice((('optuser', 'optpass'), (None, 'optpass'), ('', 'optpass'), ('optuser', '')), 'opt_login.kind') if prop == 'C18' else ('optuser', 'optpass')
+        opt_login = tape.choice((('optuser', 'optpass'), (None, 'optpass'), ('', 'optpass'), ('optuser', '')), 'opt_login.kind') if prop == 'C18' else tape.choice((('optuser', 'optpass'), ('optuser', 'optpass'), ('optuser', 'tok' + 'Zq9x' * 16)), 'opt_login.kind16')     # incl. a 67 character token (no header line may be broken by its encoding)
     use_proxy = prop == 'C16' and tape.chance(1, 3, 'use_proxy')
     start = Target(tape)
     if tape.chance(1, 4, 'userinfo'):
-        start.userinfo = (tape.choice(('user', 'us%40er', 'u%0D%0Ax', 'caf%C3%A9'), 'ui.user'), tape.choice(('pw', 'p%3Aw', 'p%0Aw'), 'ui.pw'))
+        start.userinfo = (tape.choice(('user', 'us%40er', 'u%0D%0Ax', 'caf%C3%A9'), 'ui.user'), tape.choice(('pw', 'p%3Aw', 'p%0Aw', 'k' + '0aB9' * 17), 'ui.pw'))
         r.probes['userinfo_url'] += 1
     start_url, _ = start.spell(tape, None)
     referrer = None
@@ -287,8 +295,12 @@ def run(tape, prop, tier):
     h.connects = []
     h.visited_origins = []
     h.conn_reqs = {}
+    h.refuse_connects = 0
+    h.connect_refused = False
     if use_proxy:
         r.probes['proxy'] += 1
+        if tape.chance(1, 4, 'proxy.refuse_connect'):
+            h.refuse_connects = tape.between(1, 2, 'proxy.refuse_connect.n')
     h.consecutive_auth = 0
     h.last_sched = None
     if start.userinfo:
@@ -618,7 +630,26 @@ def run(tape, prop, tier):
                 result['loops'] = n
                 h.first_visit_nreq = len(h.requests)
                 # follow-up visits after a pause: pooled connections sat idle (and may have been closed by the peer)
-                if prop == 'C16' and result.get('ok') and h.visited_origins and tape.chance(1, 3, 'followup'):
+                if prop == 'C16' and h.connect_refused and not result.get('ok'):
+                    # the item whose tunnel was refused is tried again (as the crawler does): same URL, same pool
+                    for _ in range(2):
+                        h.expected = start
+                        h.last_sched = 'retry-after-refused-connect'
+                        h.done = False
+                        r.probes['followup_visit'] += 1
+                        req2 = request_factory(start_url)
+                        if opt_login:
+                            req2.username, req2.password = opt_login
+                        s2 = web_client.session(req2)
+                        try:
+                            with s2:
+                                while not s2.done():
+                                    yield from s2.start()
+                                    yield from s2.download(io.BytesIO())
+                            break
+                        except (NetworkError, ProtocolError) as e:
+                            result['followup_error'] = type(e).__name__
+                elif prop == 'C16' and result.get('ok') and h.visited_origins and tape.chance(1, 3, 'followup'):
                     for _ in range(tape.between(1, 2, 'followup.n')):
                         yield from asyncio.sleep(tape.choice((0.2, 2.0, 10.0, 45.0), 'followup.pause'))
                         tgt = Target(tape, origin=h.visited_origins[tape.draw(len(h.visited_origins), 'followup.origin')], simple=True)
